@@ -314,6 +314,24 @@ func ruleR10c(h *H) {
 			_ = t
 			nilOK = true
 		}
+		if !nilOK {
+			// the test travelled with the dereference into a predicate helper
+			ir.Instrs(fn, func(in ssa.Instruction) {
+				c, isCall := in.(*ssa.Call)
+				if !isCall {
+					return
+				}
+				g := c.Call.StaticCallee()
+				if g == nil || !ir.InRepo(g) || g.Blocks == nil {
+					return
+				}
+				for i, a := range c.Call.Args {
+					if ir.Canon(a) == ssa.Value(commit) && i < len(g.Params) && len(ir.NilTests(g.Params[i])) > 0 {
+						nilOK = true
+					}
+				}
+			})
+		}
 		h.Verdict(nilOK, rule, "commit offset nil check in "+ir.FuncName(fn), h.P.Pos(fn.Pos()), "commitOffset is tested against nil", "commitOffset is dereferenced without a nil test")
 	}
 }
@@ -350,6 +368,33 @@ func isDamageTest(cond ssa.Value) bool {
 			if isCall(e) {
 				return true
 			}
+		}
+	}
+	// the classification moved into a predicate helper (`isDamagedRecord(err)`)
+	if c, ok := cond.(*ssa.Call); ok {
+		if g := c.Call.StaticCallee(); g != nil && ir.InRepo(g) && g.Blocks != nil && g.Signature.Results().Len() == 1 && g.Signature.Results().At(0).Type().String() == "bool" {
+			found := false
+			ir.Instrs(g, func(in ssa.Instruction) {
+				if ret, isRet := in.(*ssa.Return); isRet && len(ret.Results) == 1 {
+					if v := ret.Results[0]; v != cond && (isCall(v) || isDamagePhi(v, isCall)) {
+						found = true
+					}
+				}
+			})
+			return found
+		}
+	}
+	return false
+}
+
+func isDamagePhi(v ssa.Value, isCall func(ssa.Value) bool) bool {
+	phi, ok := v.(*ssa.Phi)
+	if !ok {
+		return false
+	}
+	for _, e := range phi.Edges {
+		if isCall(e) {
+			return true
 		}
 	}
 	return false
